@@ -1,9 +1,12 @@
 import Tahoe.Mutable.SerializerInv
 import Tahoe.Mutable.Routing
 /-! C13 — one client serializes operations on a mutable node (property theorems).
-Model: Tahoe/Mutable/Serializer.lean; helper lemmas: SerializerLemmas.lean, SerializerInv.lean.
+Models: Tahoe/Mutable/Serializer.lean (callback chain, retry attempts, requests from inside a body,
+NodeMaker memoisation), Tahoe/Mutable/Routing.lean (which operations enter the serializer); helper
+lemmas: SerializerLemmas.lean, SerializerInv.lean.
 Schedules = arbitrary lists of events `Op` (requests, completions of the operations' inner
-Deferreds with success or failure, colliding attempts, eventual-queue turns), of any length.
+Deferreds with success or failure, colliding attempts, requests made from inside a running body,
+eventual-queue turns), of any length.
 
 ## Coverage of the statement
 
